@@ -43,6 +43,11 @@ def sigs_of(args, r):
         return s
     if r.get('violation'):
         s.add(r['violation']['sig'])
+    for rk in r.get('ranks') or []:
+        for u in (rk.get('clock') or {}).get('unarmed') or []:
+            # the body of a `with time_limit(...)` was entered with no timer armed: that step can no longer be interrupted, so
+            # "generation still completes" rests on luck (in a real run a slow step would then run on unboundedly)
+            s.add('timed-step-without-timer:%s' % u[0])
     if r.get('sig'):
         # an unsound library after timeouts: the signature names the timed steps that were interrupted, so that a listed
         # finding (known_findings.json) cannot hide a different route to the same symptom
